@@ -271,7 +271,7 @@ func runE2E(out string, r *rng.R, thorough bool, m *meta) {
 		js = append(js, jsn)
 	}
 	em.Cases = len(coq)
-	em.Timeouts = timeoutProbes(ensure, goodHdr)
+	em.Timeouts = timeoutProbes(ensure, goodHdr, thorough)
 	m.E2E = em
 	m.Kinds = append(m.Kinds, writeKind(out, "ecases", "ecase", "ecase_model_ok", "ecase_verdict", coq, js, 60, ""))
 }
@@ -327,7 +327,7 @@ func e2eCase(ensure func() *child, h []byte, r *rng.R, goodHdr []byte, em *e2eMe
 }
 
 // timeoutProbes measures the header timeout on the real proxy (tested, not proved).
-func timeoutProbes(ensure func() *child, goodHdr []byte) []map[string]any {
+func timeoutProbes(ensure func() *child, goodHdr []byte, stallAll bool) []map[string]any {
 	var out []map[string]any
 	c := ensure()
 	req := request(c.origin)
@@ -379,6 +379,54 @@ func timeoutProbes(ensure func() *child, goodHdr []byte) []map[string]any {
 	// (d) a slow but timely header is served
 	el, st, closed = closeTime([]byte("PROXY TCP4 1.1.1.1 2.2"), append([]byte(".2.2 1 2\r\n"), req...), e2eHeaderTimeout/4)
 	out = append(out, map[string]any{"probe": "slow-header-within-timeout", "closed_by_server": closed, "closed_after_ms": el.Milliseconds(), "status": st, "process_alive": !c.dead()})
+	// (e) a peer that stalls after k bytes of a well-formed header, for many k at once: every such connection is closed
+	// at about the timeout, none is served, and a well-formed connection opened meanwhile is served at once
+	for _, hdr := range [][]byte{[]byte("PROXY TCP4 1.1.1.1 2.2.2.2 1000 2000\r\n"), v2header(0x21, 0x11, 12, []byte{7, 7, 7, 7, 8, 8, 8, 8, 0x1f, 0x90, 0x00, 0x50})} {
+		var ks []int
+		for k := 1; k < len(hdr); k++ {
+			if stallAll || k < 4 || k%5 == 0 || k > len(hdr)-3 {
+				ks = append(ks, k)
+			}
+		}
+		type res struct {
+			k      int
+			el     time.Duration
+			st     int
+			closed bool
+		}
+		out2 := make([]res, len(ks))
+		var wg sync.WaitGroup
+		for i, k := range ks {
+			wg.Add(1)
+			go func(i, k int) {
+				defer wg.Done()
+				el, st, cl := closeTime(hdr[:k], nil, 0)
+				out2[i] = res{k, el, st, cl}
+			}(i, k)
+		}
+		time.Sleep(60 * time.Millisecond)
+		other := exchange(c.proxy, append(append([]byte{}, goodHdr...), req...), nil, 3*time.Second)
+		wg.Wait()
+		minMs, maxMs, notClosed, served := int64(1<<62), int64(0), 0, 0
+		for _, r := range out2 {
+			ms := r.el.Milliseconds()
+			if ms < minMs {
+				minMs = ms
+			}
+			if ms > maxMs {
+				maxMs = ms
+			}
+			if !r.closed {
+				notClosed++
+			}
+			if r.st != 0 {
+				served++
+			}
+		}
+		out = append(out, map[string]any{"probe": "stall-after-k-bytes", "header_version": map[bool]int{true: 2, false: 1}[hdr[0] == '\r'],
+			"positions": len(ks), "closed_after_ms_min": minMs, "closed_after_ms_max": maxMs, "not_closed": notClosed, "served": served,
+			"other_connection_status": other.Status, "other_connection_latency_ms": other.Elapsed.Milliseconds(), "process_alive": !c.dead()})
+	}
 	// afterwards: still alive
 	p := exchange(c.proxy, append(append([]byte{}, goodHdr...), req...), nil, 2*time.Second)
 	out = append(out, map[string]any{"probe": "after-all", "status": p.Status, "xff": strings.TrimSpace(p.XFF), "process_alive": !c.dead()})
@@ -388,6 +436,27 @@ func timeoutProbes(ensure func() *child, goodHdr []byte) []map[string]any {
 func replayE2E(rp replayIn, out string, m *meta) {
 	h, _ := hex.DecodeString(rp.In)
 	em := e2eMeta{HeaderTO: e2eHeaderTimeout.String()}
+	if rp.Kind == "timeout" {
+		var ch *child
+		ensure := func() *child {
+			if ch == nil || ch.dead() {
+				var err error
+				if ch, err = startChild(); err != nil {
+					panic(err)
+				}
+			}
+			return ch
+		}
+		em.Timeouts = timeoutProbes(ensure, []byte("PROXY TCP4 9.9.9.9 8.8.8.8 999 888\r\n"), true)
+		if ch != nil && !ch.dead() {
+			ch.stop()
+		}
+		for _, t := range em.Timeouts {
+			fmt.Printf("replay timeout probe: %v\n", t)
+		}
+		m.E2E = em
+		return
+	}
 	var ch *child
 	ensure := func() *child {
 		if ch == nil || ch.dead() {
